@@ -1,4 +1,5 @@
 import Driver.Proto
+import Driver.C19
 import Driver.C21
 /-
   Model driver: reads one request per line on stdin (`<suite> <op> <args…>`), answers one
@@ -8,6 +9,7 @@ open Driver
 
 def dispatch (fs : List String) : String :=
   match fs with
+  | "c19" :: rest => Driver.c19 rest
   | "c21" :: rest => Driver.c21 rest
   | _ => "bad-op"
 
